@@ -13,6 +13,23 @@ CLAIMED = {
     technique="deterministic simulation with enumerated link faults: every truncation offset and generated trailers per seeded message, checked against a reference state machine",
     text="For each seeded clear-signed message the link is cut after every character offset (enumerated), delivered without final newline and continued with generated trailers; each received text goes to strip_pgp_signature and is compared with a reference state machine, plus the direct safety clause that a payload presented as signed is the full payload.",
     note="Trusted: the 40-line reference state machine written from the property text; bare CR excluded from the line alphabet (domain decision)."),
+
+ "C02": dict(level="fault_enumeration", ref="DESIGN.md §2 C02",
+    technique="deterministic simulation with storage/transport fault injection (truncation enumerated in the thorough tier) over all 64 parsing entry points; counting allocator + supervisor for panic/abort/hang/budget",
+    text="Well-formed instances of every artefact kind are damaged by construct-aware storage and transport faults (truncation at every offset in the thorough tier, lost/duplicated/swapped lines, hostile characters, CRLF, junk tails) and handed to all 57 &str entry points and, through a chunked faulting reader, the 7 Read-based ones; each call must return, within a polynomial allocation budget, without panic, abort, stack overflow or hang (worker processes attribute deaths to the run).",
+    note="Trusted: the allocation budget as the deterministic proxy for time; the 20 s watchdog only as backstop. Third-party parsers run real."),
+ "C04": dict(level="exploration", ref="DESIGN.md §2 C04",
+    technique="deterministic simulation of editing sessions: seeded schedule of 1-3 clients editing one shared rowan tree through aliasing handles, restart (print/re-read through faulting reader) events, list-model oracle + reference-segmenter locality diff + strict re-read after every step",
+    text="Seeded editing sessions over one shared tree: clients acquire paragraph handles at different times and set/insert/remove/rename/observe through them (second handles, handles to removed paragraphs), interleaved with paragraph-level edits and restarts; after every step the list model, the byte-level locality of the edit and the strict re-read of the printed text are checked.",
+    note="Trusted: the list model (Appendix E) and the reference segmenter (Appendix F). Start states the reference reads differently from the implementation are skipped (C03)."),
+ "C05": dict(level="exploration", ref="DESIGN.md §2 C05",
+    technique="same session simulator as C04 with paragraph-level operations in the foreground (add/insert/remove at in- and out-of-range indices interleaved with field edits through handles acquired before and after, restarts)",
+    text="Same simulator with add/insert/remove-paragraph in the foreground: paragraph list equals Vec push/insert/remove by identity, handles survive index shifts, other paragraphs and comments byte-identical, blank lines change only next to the edit, printed text re-reads to the same paragraphs.",
+    note="Trusted: list model and reference segmenter; comments in the same non-blank run as a removed paragraph may go with it (they can be inside its node)."),
+ "C08": dict(level="exploration", ref="DESIGN.md §2 C08",
+    technique="deterministic simulation of lossy editing sessions with restart events: list-model oracle per step, print -> lossy from_reader (faulting reader) -> equality, separator and lossless-agreement checks",
+    text="Lossy documents built from name/value pairs are edited through iter_mut() with set/insert/remove/get against a list model; restart events print the document and reload it through lossy::Deb822::from_reader over a chunked EINTR-ing reader and through the strict lossless reader; reloaded value must equal the live value.",
+    note="Trusted: list model. Paragraphs are never emptied and continuation lines never start with '#' (domain decisions)."),
 }
 
 NOT_APPLICABLE = {
